@@ -3,7 +3,8 @@
 //   mt turn <o|e> <sevA> <sevB> <w|s> <rep> <build>
 //        turnstile: writer A (severity sevA) is parked inside the stream buffer - in its write
 //        (w) or in the flush that follows (s) - writer B (severity sevB) must block before entering;
-//        <rep> records are logged beforehand (the lock has a history)
+//        <rep> > 1: filler records bring the number of records the sink has seen since the process started to
+//        <rep> modulo 65536 first (the lock has a history; counters inside it wrap around)
 //   mt stress <o|e> <threads> <records> <sevmode> <seed> <build>
 //        sevmode 0..5: every record at that severity; 6: (5t+k) mod 6; 7: thread 0 fatal, others k mod 5;
 //        8: info, and every second record is logged by a callable operand of the following statement
@@ -175,9 +176,13 @@ static std::string record_text(int t, int k, int sev)
     return r;
 }
 
+// records handed to each sink since the process started (a lock inside the sink has seen as many acquisitions)
+static std::atomic<unsigned long> g_records_out{ 0 }, g_records_err{ 0 };
+
 template <typename L>
 static void log_one(int sev, const std::string& text)
 {
+    (std::is_same<L, LogOut>::value ? g_records_out : g_records_err)++;
     switch (sev >= 6 ? 2 : sev)
     {
     case 0:
@@ -344,9 +349,18 @@ static std::string handle(const std::vector<std::string>& f)
     {
         int sevA = std::stoi(f.at(2)), sevB = std::stoi(f.at(3));
         // <rep> records go through the sink first (from this thread); the turnstile comes after them
+        // (counted since the process started: filler records bring the sink's count to <rep> modulo 65536)
         long before = std::stol(f.at(5));
-        for (long i = 0; i < before; i++)
-            log(2, std::string("r"));
+        if (before > 1)
+        {
+            unsigned long seen = (use_out ? g_records_out : g_records_err).load();
+            unsigned long filler = (static_cast<unsigned long>(before) + 65536ul * 4 - seen % 65536ul) % 65536ul;
+            for (unsigned long i = 0; i < filler; i++)
+                log(2, std::string("r"));
+        }
+        else
+            for (long i = 0; i < before; i++)
+                log(2, std::string("r"));
         buf.entries = 0;
         buf.max_inside = 0;
         buf.park_mode = f.at(4) == "s" ? 2 : 1;
@@ -418,6 +432,7 @@ static std::string handle(const std::vector<std::string>& f)
                             log(2, inner);
                             return outer;
                         };
+                        (use_out ? g_records_out : g_records_err)++;
                         if (use_out)
                             LogOut::info() << operand;
                         else
